@@ -20,8 +20,8 @@ if [ $brc = 0 ]; then
 fi
 dw=NA; dwo=NA
 if [ -f $sd/demo/run.sh ]; then
-  ( SRC=$wt BUILD=$wt/_b timeout 900 sh $sd/demo/run.sh >>$log 2>&1 ); dw=$?
-  ( SRC=/repo BUILD=/verif/.build/hooks timeout 900 sh $sd/demo/run.sh >>$log 2>&1 ); dwo=$?
+  ( SRC=$wt BUILD=$wt/_b timeout 900 bash $sd/demo/run.sh >>$log 2>&1 ); dw=$?
+  ( SRC=/repo BUILD=/verif/.build/hooks timeout 900 bash $sd/demo/run.sh >>$log 2>&1 ); dwo=$?
 fi
 rm -rf $wt/_b
 ( cd /verif && VERIF_REPO=$wt timeout 3600 tools/vcheck $pid --tier $tier > /tmp/sv-$id.check 2>&1 ); crc=$?
